@@ -16,7 +16,11 @@
 from warnings import warn
 import unified_planning as up
 from unified_planning.model.expression import ConstantExpression
-from unified_planning.exceptions import UPProblemDefinitionError, UPValueError
+from unified_planning.exceptions import (
+    UPProblemDefinitionError,
+    UPTypeError,
+    UPValueError,
+)
 from typing import Optional, List, Dict, Union, Iterable, Set
 
 
@@ -45,8 +49,7 @@ class FluentsSetMixin:
         ] = {}
         self._initial_defaults: Dict["up.model.types.Type", "up.model.fnode.FNode"] = {}
         for k, v in initial_defaults.items():
-            (v_exp,) = self.environment.expression_manager.auto_promote(v)
-            self._initial_defaults[k] = v_exp
+            self._initial_defaults[k] = self._default_value_exp(k, v)
         # The field initial default optionally associates a type to a default value. When a new fluent is
         # created with no explicit default, it will be associated with the initial-default of his type, if any.
 
@@ -54,6 +57,24 @@ class FluentsSetMixin:
     def environment(self) -> "up.environment.Environment":
         """Returns the `problem` `Environment`."""
         return self._env
+
+    def _default_value_exp(
+        self, tpe: "up.model.types.Type", value: "ConstantExpression"
+    ) -> "up.model.fnode.FNode":
+        """
+        Returns the expression of the given default initial `value`, checking that it is a
+        constant that can be assigned to a `fluent` of the given `type`.
+        """
+        (v_exp,) = self._env.expression_manager.auto_promote(value)
+        if not v_exp.is_constant():
+            raise UPTypeError(
+                f"The default initial value {v_exp} of type {tpe} is not a constant."
+            )
+        if not tpe.is_compatible(v_exp.type):
+            raise UPTypeError(
+                f"The default initial value {v_exp} is not compatible with the type {tpe}."
+            )
+        return v_exp
 
     @property
     def fluents(self) -> List["up.model.fluent.Fluent"]:
@@ -144,12 +165,12 @@ class FluentsSetMixin:
                 raise UPProblemDefinitionError(msg)
             else:
                 warn(msg)
-        self._fluents.append(fluent)
+        default_exp = None
         if not default_initial_value is None:
-            (v_exp,) = self.environment.expression_manager.auto_promote(
-                default_initial_value
-            )
-            self._fluents_defaults[fluent] = v_exp
+            default_exp = self._default_value_exp(fluent.type, default_initial_value)
+        self._fluents.append(fluent)
+        if default_exp is not None:
+            self._fluents_defaults[fluent] = default_exp
         elif fluent.type in self._initial_defaults:
             self._fluents_defaults[fluent] = self._initial_defaults[fluent.type]
         if fluent.type.is_user_type():
